@@ -15,7 +15,8 @@ from vf import core, domain, env, sched
 ID = "C09"
 LEVEL = "exploration"
 RULE = ("scenarios {same key x2, same key x3, different keys, two functions with identical result bytes, nested call "
-        "f->g against a direct call of g, batch against a single call} x store {cold, warm store + cold cache, warm "
+        "f->g against a direct call of g, batch against a single call, two overlapping batches, three threads with two "
+        "calls each over three keys} x store {cold, warm store + cold cache, warm "
         "cache} x cache budget {4 KiB (evictions), 16 MiB}; yield points: every line of runner_local.py and "
         "storage_base.py (thorough: also storage_filesystem.py), every function entry in the other memento modules; "
         "systematic driver: every schedule with one preemption (each yield point x each other thread, for each "
@@ -35,6 +36,8 @@ SCENARIOS = {
     "same_bytes": [[["produce", "k1"]], [["produce2", "k1"]]],
     "nested": [[["nest", "k1"]], [["produce", "k1"]]],
     "batch": [[["batch", ["k1", "k2"]]], [["produce", "k2"]]],
+    "batch_overlap": [[["batch", ["k1", "k2"]]], [["batch", ["k2", "k1", "k2"]]]],
+    "three_keys": [[["produce", "k1"], ["produce", "k3"]], [["produce", "k2"], ["produce", "k1"]], [["produce2", "k3"]]],
 }
 STORES = ["cold", "warm_store", "warm_cache"]
 BUDGETS = {"4KiB": 4 * env.KIB, "16MiB": 16}
@@ -47,7 +50,7 @@ def configs():
 
 def cases(tier, seed):
     cfgs = configs()
-    quick_sys = {(s, st, "4KiB") for s in SCENARIOS for st in ("cold", "warm_store")} | {
+    quick_sys = {(s, st, "4KiB") for s in list(SCENARIOS)[:6] for st in ("cold", "warm_store")} | {
         ("same_key", "warm_cache", "4KiB"), ("diff_keys", "cold", "16MiB"), ("batch", "warm_store", "16MiB")}
     for ci, (s, st, b) in enumerate(cfgs):
         n = len(SCENARIOS[s])
@@ -82,7 +85,7 @@ def ensure_monitor(tier):
 
 
 def table():
-    return {"k1": "v1-" + "a" * 1500, "k2": "v2-" + "b" * 1500}
+    return {"k1": "v1-" + "a" * 1500, "k2": "v2-" + "b" * 1500, "k3": "v3-" + "c" * 1500}
 
 
 def do_op(op):
